@@ -278,7 +278,9 @@ func (ex *Exec) cryptoSpec(name string, arg func(i int) Value, env *SpecEnv) (Va
 	case "aeadkeyed":
 		iv := arg(0).(IfaceV)
 		key := arg(1).(ArrV)
-		return BoolV{And(Neq(iv.Tag, BV(0, 16)), Eq(Select(ghostRefArr(st, "aead.key", SFP), Extract(iv.Pay, 31, 0)), ZeroExt(packArr(key.A, 32), 256)))}, true
+		ref := Extract(iv.Pay, 31, 0)
+		return BoolV{And(Neq(iv.Tag, BV(0, 16)), Select(st.get("alloc", SArr(SRef, SBool)), ref),
+			Eq(Select(ghostRefArr(st, "aead.key", SFP), ref), ZeroExt(packArr(key.A, 32), 256)))}, true
 	case "hkdf0":
 		// HKDF stream with an empty secret (Noise split): block j of (salt)
 		salt := arg(0).(ArrV)
